@@ -1000,15 +1000,19 @@ fn compare(outs: &[(Env, ChildOut)]) -> Vec<Finding> {
     let find = |k: usize, o: usize, rep: bool| outs.iter().find(|(e, _)| e.key == k && e.off == o && e.repeat == rep);
     // per dimension: list of (field, witness pair)
     let mut per_dim: BTreeMap<&'static str, Vec<(String, Env, Env, u8)>> = BTreeMap::new();
-    for f in &names {
-        // process-repeat: identical environment, other process
-        let mut uncontrolled = false;
-        if let (Some((e0, c0)), Some((er, cr))) = (find(0, 0, false), find(0, 0, true)) {
+    // process-repeat: identical environment, other process. If anything differs there, E does not own
+    // this case's nondeterminism and differences between environments cannot be attributed to a
+    // dimension of E: hash-key / clock are then not reported for the case.
+    let mut uncontrolled = false;
+    if let (Some((e0, c0)), Some((er, cr))) = (find(0, 0, false), find(0, 0, true)) {
+        for f in &names {
             if get(&c0.r1, f) != get(&cr.r1, f) {
                 uncontrolled = true;
                 per_dim.entry("process-repeat").or_default().push((f.clone(), e0.clone(), er.clone(), 1));
             }
         }
+    }
+    for f in &names {
         if !uncontrolled {
             // hash-key: same clock offset, different key
             'hk: for o in 0..OFFSETS.len() {
@@ -1280,7 +1284,7 @@ fn main() {
     let coverage = json!({
         "evaluations": children * 2,
         "distinct_nontrivial": nontrivial.len(),
-        "rule": "every (harness entry point, preset configuration, seed in [0,S)) is executed in 9 child processes (4 hash keys x 2 wall-clock offsets, plus a repetition of e0), twice per process; evaluations = harness executions compared (children x 2). All 36 environment pairs are decided by comparing every field (trace, sorted final state, result fields, verdict) byte for byte. A case is non-trivial when its run executed operations (non-empty trace or non-zero operation counter); distinct_nontrivial counts the distinct canonical outputs (seed field excluded) among non-trivial cases in e0, i.e. how many genuinely different simulations were compared",
+        "rule": "every (harness entry point, preset configuration, seed in [0,S)) is executed in 9 child processes (4 hash keys x 2 wall-clock offsets, plus a repetition of e0), twice per process; evaluations = harness executions compared (children x 2). Every field (trace, sorted final state, result fields, verdict) is compared byte for byte along 17 comparisons per case that connect all 9 outputs (all 6 key pairs under each of the 2 offsets, both offsets under each of the 4 keys, e0 against its repetition); equality is transitive, so these decide all 36 environment pairs and attribute a difference to the dimension that produces it; plus run 1 against run 2 inside each of the 9 processes. A case is non-trivial when its run executed operations (non-empty trace or non-zero operation counter); distinct_nontrivial counts the distinct canonical outputs (seed field excluded) among non-trivial cases in e0, i.e. how many genuinely different simulations were compared",
         "cases": cases.len(),
         "child_processes": children,
         "environments": es.iter().map(|e| e.label()).collect::<Vec<_>>(),
@@ -1292,13 +1296,14 @@ fn main() {
         "stripped_fields_note": "nothing is stripped: no result struct of the covered harnesses carries a wall-clock duration or an address (checked field by field in the sources: all time fields are VirtualTime / Lamport / simulated ms); HashMap-typed result fields (CRDTDSTResult.ops_per_replica, SimulationResult.operations_by_type, BuggifyStats.checks/triggers, CrashStats.crashes_by_reason) are rendered sorted by key because a map has no order to reproduce",
         "samples": samples,
         "exhaustive": true,
+        "partial_run_filter": only.clone().map(J::from).unwrap_or(J::Null),
         "seeds_bound": if args.tier == Tier::Quick { "S=8 for every harness and preset; the real-clock variants of streaming/compaction are thorough-only" } else { "S=64 for every harness and preset; real-clock variants streaming_realtime/compaction_realtime: 4 seeds x 2 presets (about 13 s per child)" },
     });
     rep.finish(
         coverage,
         vec![
             "E is owned through /verif/selfcomp/shim.so (verified at the start of every run, see coverage.shim_verification): getrandom/SYS_getrandom//dev/urandom answered from VERIF_RANDOM_KEY, realtime clocks shifted by VERIF_CLOCK_OFFSET, ASLR off. The hash-key dimension is 4 chosen keys, not all iteration orders a map can take; seeds >= S are outside the bound".into(),
-            "ahash (runtime-rng) mixes into every RandomState, besides the 64 getrandom bytes (owned), a counter advanced by the address of a heap box and started at the address of a static: with ASLR off and an empty environment these addresses are the same in all children (verified), so they are fixed, not enumerated; the same-process second run does see advanced ahash counters and std RandomState keys (k0+1 per map)".into(),
+            "ahash (runtime-rng) mixes into every RandomState, besides the 64 getrandom bytes (owned), a counter advanced by the address of a heap box and started at the address of a static: with ASLR off and an empty environment these addresses are the same in all children (verified), so they are fixed, not enumerated; the same-process second run does see advanced ahash counters and std RandomState keys (k0+1 per map). Orders of ahash maps are therefore a function of (key, binary layout): reproducible for a given build of this binary, possibly different after a rebuild; orders of std maps depend on the key only".into(),
             "monotonic clocks are not shifted (std::time::Instant exposes differences only; shifting breaks absolute-deadline futex waits); the rate of time is not varied, so a decision on elapsed real time (none found in the harness paths: WriteBuffer/StreamingPersistence::should_flush is never called by the DST harnesses) would not be exercised".into(),
             "the async harnesses (streaming, compaction) run on a current-thread tokio runtime with the clock paused (their store latency is a real tokio::time::sleep of up to 100 ms per call; paused time auto-advances); thread scheduling is therefore not a dimension. Fewer operations than the presets' max_operations (300 / 200)".into(),
             "harnesses that only exist as toolkits (MultiNodeSimulation, ScenarioBuilder/SimulationHarness, Simulation event queue, SimulatedConnection) are driven by fixed scripts of this check that draw only from the simulation's own seeded rng and use only commands whose replies Redis orders; the scripts are part of the trusted base".into(),
